@@ -47,6 +47,14 @@ func tsSubst(sb *strings.Builder, s []rune, n, i int) {
 		switch {
 		case c == tsIdx:
 			sb.WriteString(strconv.Itoa(i))
+		case c == tsIdx+1: // RIDX
+			sb.WriteString(strconv.Itoa(n - 1 - i))
+		case c == tsIdx+2: // IDX1
+			sb.WriteString(strconv.Itoa(i + 1))
+		case c == tsIdx+3: // TRI
+			sb.WriteString(strconv.Itoa(n * (n + 1) / 2))
+		case c == tsIdx+4: // TRI0
+			sb.WriteString(strconv.Itoa(n * (n - 1) / 2))
 		case c >= tsNum && c < tsNum+128:
 			a, b := int(c-tsNum)/32, int(c-tsNum)%32-8
 			sb.WriteString(strconv.Itoa(a*n + b))
